@@ -79,7 +79,18 @@ def zoo_task(t):
             x0[0, 0] = 0.0   # a smooth point of every smooth elementwise map
         wts = {}
         done = set()
-        for cs in cases:
+        # fine-tuning practice: part of the model is frozen with requires_grad_(False).  "tail": the parameters of the
+        # later half of the model (the earlier ones, the inputs and the context still get their true gradients
+        # THROUGH the frozen part); "all": every parameter (inputs and context still do)
+        pnames = [n for n, _ in m.named_parameters()]
+        for frozen, cs in [(fz, cs_) for fz in (None, "tail", "all") for cs_ in cases]:
+            if frozen is not None and (len(pnames) < (2 if frozen == "tail" else 1) or str(cs["hist"]) != "fresh" or bool(cs["useCache"])):
+                continue
+            if frozen == "all" and str(cs["wrt"]) == "params":
+                continue
+            cut = set(pnames[len(pnames) // 2:]) if frozen == "tail" else set(pnames) if frozen == "all" else set()
+            for n_, p_ in m.named_parameters():
+                p_.requires_grad_(n_ not in cut)
             if (str(cs["kind"]["k"]), bool(cs["kind"]["ctx"]), bool(cs["kind"]["cache"])) != (k, hasctx, hascache):
                 continue
             mode, uc, hist, result, wrt = str(cs["mode"]), bool(cs["useCache"]), str(cs["hist"]), str(cs["result"]), str(cs["wrt"])
@@ -91,12 +102,12 @@ def zoo_task(t):
                 continue
             if result == "sample_and_log_prob" and (not e.has("sample") or e.has("nonreparam") or (e.has("batch_coupled_train") and mode == "train")):
                 continue  # no sampler, or one that is not reparameterised by design (mixture components, Bernoulli)
-            key = (mode, uc, hist, result, wrt)
+            key = (mode, uc, hist, result, wrt, frozen)
             if key in done:
                 continue
             done.add(key)
             out["n"] += 1
-            case = {"name": name, "mode": mode, "cache": uc, "hist": hist, "result": result, "wrt": wrt, "seed": seed}
+            case = {"name": name, "mode": mode, "cache": uc, "hist": hist, "result": result, "wrt": wrt, "seed": seed, "frozen": frozen}
             sd = {kk: v.clone() for kk, v in m.state_dict().items()}
             m.train(mode == "train")
             for mod in m.modules():
@@ -202,8 +213,10 @@ def zoo_task(t):
                     out["fails"].append(dict(case, clause="no_gradient", leaf=lname, detail="%s %s (%s mode, cache %s, %s): %s influences the result (finite difference %.6g) but receives no gradient" % (name, result, mode, uc, hist, lname, fd)))
                     break
                 if abs(fd - an) > 2e-4 * scale:
-                    out["fails"].append(dict(case, clause="wrong_gradient", leaf=lname, detail="%s %s (%s mode, cache %s, %s): directional derivative w.r.t. %s is %.8g by autograd, %.8g by central differences" % (name, result, mode, uc, hist, lname, an, fd)))
+                    out["fails"].append(dict(case, clause="wrong_gradient", leaf=lname, detail="%s %s (%s mode, cache %s, %s%s): directional derivative w.r.t. %s is %.8g by autograd, %.8g by central differences" % (name, result, mode, uc, hist, ", parameters frozen: %s" % frozen if frozen else "", lname, an, fd)))
                     break
+        for p_ in m.parameters():
+            p_.requires_grad_(True)
     return out
 
 
@@ -223,7 +236,7 @@ def main(run, replay=None):
         c = replay["case"]
         out = zoo_task(([c["name"]], cases, c["seed"]))
         for f in out["fails"]:
-            if all(f[k] == c[k] for k in ("mode", "cache", "hist", "result", "wrt")):
+            if all(f.get(k) == c.get(k) for k in ("mode", "cache", "hist", "result", "wrt", "frozen")):
                 run.violation({"name": c["name"], "clause": f["clause"], "wrt": f["wrt"]}, "replayed: " + f["detail"], c)
         return
     thorough = run.tier == "thorough"
@@ -239,13 +252,14 @@ def main(run, replay=None):
     run.sample({"case": {k: (dict(v) if isinstance(v, dict) else v) for k, v in cases[len(cases) // 2].items()}})
     seen = set()
     for f in fails:
-        key = (f["name"], f["clause"], f["result"], f["wrt"], f["mode"], f["cache"])
+        key = (f["name"], f["clause"], f["result"], f["wrt"], f["mode"], f["cache"], f.get("frozen"))
         if key in seen:
             continue
         seen.add(key)
         run.violation({"name": f["name"], "clause": f["clause"], "wrt": f["wrt"], "mode": f["mode"], "cache": f["cache"], "cache_filled_under_no_grad": f.get("cache_filled_under_no_grad", False)}, f["detail"], {k: v for k, v in f.items() if k != "detail"})
     run.exhaustive = True
     run.assumptions = [
+        "frozen variants: the later half of the parameter tensors, or all of them, with requires_grad False (fresh history, cache off)",
         "gradients are compared along one random direction per leaf with central differences (eps 1e-6, float64, tolerance 2e-4 relative): away from the finitely many kinks",
         "numerical equality of gradients rests on torch autograd for the built-in operators; UMNN (custom autograd Function) and discrete distributions are skipped",
     ]
